@@ -81,3 +81,32 @@ package vm
 //@ loop 0 invariant[top] wfTryAll(v) ==> ($i == 0 ==> topctx == nil) && ($i > 0 ==> topctx == v.istack[len(v.istack)-1])
 //@ loop 0 invariant[scan] wfTryAll(v) ==> forall(k, len(v.istack) - $i, len(v.istack), v.istack[k].sc == v.istack[len(v.istack)-1].sc && !inTry(v.istack[k]))
 //@ loop 1 invariant[notry] wfTryAll(v) ==> forall(j, len(ictx.tryStack.elems) - $i, len(ictx.tryStack.elems), ehc(ictx.tryStack.elems[j]).State != eTry)
+
+//@ prop C12
+//@ import opcode github.com/nspcc-dev/neo-go/pkg/vm/opcode
+//@ import uint256 github.com/holiman/uint256
+
+// One instruction cycle, behaviour by behaviour (each `case` is verified on its own under
+// its own precondition; panics are the VM's FAULT path and are caught by the deferred
+// recover, which is outside these contracts).
+//@ func (*VM).execute
+//@ may-panic
+//@ opt frame off
+//@ requires v != nil && ctx != nil && ctx.sc != nil && v.gasConsumed != nil
+//@ opt callbacks pure
+//@ opt stable v.gasConsumed, *v.gasConsumed, v.gasLimit
+
+// Gas: an instruction that is charged and returns normally leaves the consumed gas within
+// the limit, whatever the limit is (zero included).
+//@ case gas
+//@ requires op == opcode.NOP && v.getPrice != nil && ctx.ip < len(ctx.sc.prog) && !ctx.sc.whitelisted && v.gasLimit >= 0
+//@ ensures[limit] uint256.u256(*v.gasConsumed) <= v.gasLimit
+
+// APPEND: the item whose references are counted is the item that was stored in the
+// collection (the clone, when the operand is a struct), and it is counted exactly when the
+// collection itself is referenced.
+//@ case APPEND
+//@ requires op == opcode.APPEND && v.getPrice == nil
+//@ call (*refCounter).Add requires[stored] arg1 == val
+//@ call (*Array).Append requires[stored] arg1 == val
+//@ call (*Struct).Append requires[stored] arg1 == val
